@@ -27,7 +27,7 @@ Obs(ev) ==
     /\ \A n \in alive' : downs'[n] = ev.downs[n]
     /\ \A n \in alive' : prog'[n].ups = ev.ups[n]
     /\ alive' = ToSet(ev.alive)
-    /\ \A n \in alive' : prog'[n].kind \in {"zip", "combine_latest"} => nst'[n] = FixState(prog'[n], ev.nst[n])
+    /\ \A n \in alive' : (prog'[n].kind \in {"zip", "combine_latest"} /\ n \notin ToSet(ev.opq)) => nst'[n] = FixState(prog'[n], ev.nst[n])
 
 Event(ev) ==
     /\ CASE ev.ev = "emit" -> /\ EmitAt(ev.a, ev.x, <<>>, {})
